@@ -35,6 +35,10 @@ def rand_sp(rng):
         sp["n"] = {"x": rng.choice(TYPED)}
         if rng.random() < 0.4:
             sp["n"]["y"] = {"z": rng.choice(TYPED)}
+            if rng.random() < 0.6:  # sibling leaves two and three levels down
+                sp["n"]["y"]["w"] = rng.choice(TYPED)
+            if rng.random() < 0.3:
+                sp["n"]["y"]["deep"] = {"p": rng.choice(TYPED), "q": rng.choice(TYPED)}
     elif r < 0.55:
         sp["n"] = rng.choice(TYPED)
     return sp
